@@ -5,7 +5,7 @@ From DV Require Import Proofs.MessageName Proofs.MessageRender Proofs.MessageRea
 Open Scope Z_scope.
 
 Definition q_equiv (q' q : rrset) : Prop :=
-  ci_equal (rname q') (rname q) /\ name_ok (rname q') /\ rclass q' = rclass q /\ rtype q' = rtype q /\
+  ci_equal (rname q') (rname q) /\ rclass q' = rclass q /\ rtype q' = rtype q /\
   rcovers q' = 0 /\ rdeleting q' = None /\ rttl q' = 0 /\ rrds q' = [].
 
 Definition msg_equiv (m' m : msg) : Prop :=
@@ -82,193 +82,11 @@ Qed.
 Lemma zlen_to_nat {A} (l : list A) : Z.to_nat (zlen l) = length l.
 Proof. unfold zlen. apply Nat2Z.id. Qed.
 
-Lemma read_structure id fl qs ds1 ds2 ds3 (o : option optrec) owner' wb body (e0 e1 e2 e3 : nat) :
-  let w := hdr_bytes id fl (zlen qs) (zlen ds1) (zlen ds2) (zlen ds3 + opt_count o) ++ body in
-  0 <= id <= 65535 -> 0 <= fl <= 65535 -> zlen qs <= 65535 -> zlen ds1 <= 65535 -> zlen ds2 <= 65535 ->
-  zlen ds3 + opt_count o <= 65535 ->
-  (opcode_from_flags fl =? 5) = false ->
-  QChain w 12 qs e0 -> Chain w e0 ds1 e1 -> Chain w e1 ds2 e2 -> Chain w e2 ds3 e3 ->
-  Forall ordinary ds1 -> Forall ordinary ds2 -> Forall ordinary ds3 ->
-  match o with
-  | Some o' => RRreads w e3 owner' tOPT (opayload o') (oflags o') [FRest] [PB wb] (length w) /\
-               ci_equal owner' [[]] /\ opts_wire (oopts o') = Ok wb /\ opts_ok (oopts o')
-  | None => e3 = length w
-  end ->
-  from_wire w None po0 = Ok (read_result id fl qs ds1 ds2 ds3 o).
-Proof.
-  intros w Hid Hfl Hq H1 H2 H3 Hop QC C1 C2 C3 O1 O2 O3 HO.
-  pose proof (zlen_nn qs). pose proof (zlen_nn ds1). pose proof (zlen_nn ds2). pose proof (zlen_nn ds3).
-  assert (Hoc : 0 <= opt_count o <= 1) by (destruct o; cbn; lia).
-  destruct (hdr_read id fl (zlen qs) (zlen ds1) (zlen ds2) (zlen ds3 + opt_count o) body) as (R0 & R2 & R4 & R6 & R8 & R10);
-    try lia.
-  fold w in R0, R2, R4, R6, R8, R10.
-  assert (Hl : (12 <= length w)%nat).
-  { unfold w, hdr_bytes. rewrite !app_length. cbn [length MessageM.u16]. lia. }
-  unfold from_wire. destruct (Nat.ltb_spec (length w) 12); [lia|].
-  rewrite R0, R2, R4, R6, R8, R10. cbn [bind]. rewrite Hop.
-  change (p_one_rr po0) with false. change (p_question_only po0) with false. cbv iota.
-  rewrite zlen_to_nat.
-  pose proof (get_question_chain w [] qs 12 e0 (mkMsg id fl [] [] [] [] None None) QC) as GQ.
-  rewrite app_nil_r in GQ. rewrite GQ. cbn [bind fst snd].
-  rewrite !zlen_to_nat.
-  set (m1 := fold_left add_q qs (mkMsg id fl [] [] [] [] None None)).
-  pose proof (get_section_chain w [] 1 (length ds1) ds1 e0 e1 0%nat false m1 C1 O1) as G1.
-  rewrite app_nil_r in G1. rewrite G1. cbn [bind fst snd].
-  set (m2 := fold_left (apply_d 1 false) ds1 m1).
-  pose proof (get_section_chain w [] 2 (length ds2) ds2 e1 e2 0%nat false m2 C2 O2) as G2.
-  rewrite app_nil_r in G2. rewrite G2. cbn [bind fst snd].
-  set (m3 := fold_left (apply_d 2 false) ds2 m2).
-  set (cnt := Z.to_nat (zlen ds3 + opt_count o)).
-  set (m4 := fold_left (apply_d 3 false) ds3 m3).
-  destruct o as [o'|].
-  - destruct HO as (RO & CI & HW & OK).
-    assert (Hcnt : cnt = (length ds3 + 1)%nat) by (unfold cnt, zlen; cbn [opt_count]; lia).
-    rewrite Hcnt. rewrite get_section_split.
-    pose proof (get_section_chain w [] 3 (length ds3 + 1) ds3 e2 e3 0%nat false m3 C3 O3) as G3.
-    rewrite app_nil_r in G3. rewrite G3. cbn [bind fst snd get_section].
-    assert (HM : mopt m4 = None).
-    { unfold m4. destruct (fold_apply_d_keeps 3 ds3 m3) as (-> & _).
-      unfold m3. destruct (fold_apply_d_keeps 2 ds2 m2) as (-> & _).
-      unfold m2. destruct (fold_apply_d_keeps 1 ds1 m1) as (-> & _).
-      unfold m1. destruct (fold_add_q_keeps qs (mkMsg id fl [] [] [] [] None None)) as (-> & _). reflexivity. }
-    pose proof (get_rr_opt w e3 owner' (opayload o') (oflags o') wb (oopts o') (length w) [] (length ds3 + 1)
-                           (0 + length ds3) false m4 RO CI HW OK HM) as GO.
-    rewrite app_nil_r in GO. fold m4. rewrite GO. cbn [bind fst snd].
-    change (p_ignore_trailing po0) with false. change (p_raise_on_trunc po0) with false.
-    cbn [negb andb]. rewrite Nat.eqb_refl. cbn [negb andb].
-    rewrite andb_false_r. unfold read_result. fold m1 m2 m3 m4. destruct o'; reflexivity.
-  - assert (Hcnt : cnt = length ds3) by (unfold cnt, zlen; cbn [opt_count]; lia).
-    rewrite Hcnt.
-    pose proof (get_section_chain w [] 3 (length ds3) ds3 e2 e3 0%nat false m3 C3 O3) as G3.
-    rewrite app_nil_r in G3. rewrite G3. cbn [bind fst snd]. subst e3.
-    change (p_ignore_trailing po0) with false. change (p_raise_on_trunc po0) with false.
-    cbn [negb andb]. rewrite Nat.eqb_refl. cbn [negb andb].
-    rewrite andb_false_r. reflexivity.
-Qed.
-
 Lemma skipn_app_exact' {A} (a b : list A) n : length a = n -> skipn n (a ++ b) = b.
 Proof. intros <-. rewrite skipn_app, skipn_all, Nat.sub_diag. reflexivity. Qed.
 
 Lemma TableSound_nil' file : TableSound file [].
 Proof. intros k v []. Qed.
-
-Lemma render_structure m ms rp r :
-  WfMsg m -> mtsig m = None -> to_wire_st m None ms rp false 0 = Ok r ->
-  exists qs ds1 ds2 ds3 owner' wb body (e0 e1 e2 e3 : nat),
-    out r = hdr_bytes (mid m) (mflags m) (zlen qs) (zlen ds1) (zlen ds2) (zlen ds3 + opt_count (mopt m)) ++ body /\
-    0 <= mid m <= 65535 /\ 0 <= mflags m <= 65535 /\ zlen qs <= 65535 /\ zlen ds1 <= 65535 /\
-    zlen ds2 <= 65535 /\ zlen ds3 + opt_count (mopt m) <= 65535 /\
-    QChain (out r) 12 qs e0 /\ Chain (out r) e0 ds1 e1 /\ Chain (out r) e1 ds2 e2 /\ Chain (out r) e2 ds3 e3 /\
-    Forall2 q_desc (mq m) qs /\ SecDesc (man m) ds1 /\ SecDesc (mau m) ds2 /\ SecDesc (mad m) ds3 /\
-    match mopt m with
-    | Some o' => RRreads (out r) e3 owner' tOPT (opayload o') (oflags o') [FRest] [PB wb] (length (out r)) /\
-                 ci_equal owner' [[]] /\ opts_wire (oopts o') = Ok wb
-    | None => e3 = length (out r)
-    end /\
-    TableSound (out r) (tbl r).
-Proof.
-  intros WF NT H. unfold to_wire_st in H.
-  set (eff := eff_limit ms rp) in *.
-  set (r0 := mkRst (repeat 0 12) [] 0 0 0 0 0 (mflags m) eff 0 false) in *.
-  apply bind_ok in H. destruct H as (r1 & R1 & H).
-  unfold compute_tsig_reserve in H. rewrite NT in H. cbn [bind] in H.
-  apply bind_ok in H. destruct H as (r2 & R2 & H).
-  apply reserve_is in R1. destruct R1 as (a1 & b1 & ->). apply reserve_is in R2. destruct R2 as (a2 & b2 & ->).
-  set (r2 := set_limits (set_limits r0 a1 b1) a2 b2) in *.
-  apply bind_ok in H. destruct H as ([bq s1] & S1 & H). cbn [fst snd] in H.
-  apply bind_ok in H. destruct H as ([ba s2] & S2 & H). cbn [fst snd] in H.
-  apply bind_ok in H. destruct H as ([bu s3] & S3 & H). cbn [fst snd] in H.
-  apply bind_ok in H. destruct H as ([bd s4] & S4 & H). cbn [fst snd] in H.
-  apply bind_ok in H. destruct H as (r3 & R3 & H).
-  assert (bq = false /\ ba = false /\ bu = false /\ bd = false) as (-> & -> & -> & ->).
-  { destruct bq; [injection S2 as <- <-; injection S3 as <- <-; injection S4 as <- <-; discriminate|].
-    destruct ba; [injection S3 as <- <-; injection S4 as <- <-; discriminate|].
-    destruct bu; [injection S4 as <- <-; discriminate|].
-    destruct bd; [discriminate|]. auto. }
-  injection R3 as <-.
-  set (r4 := release_reserved s4) in *.
-  apply bind_ok in H. destruct H as (r5 & R5 & H).
-  (* the final header *)
-  apply bind_ok in H. destruct H as (r6 & H & Hr6). injection Hr6 as <-.
-  destruct (write_header_full _ _ _ H) as (-> & Hid & Hfl & Hc0 & Hc1 & Hc2 & Hc3).
-  assert (Hh : zlen (hdr_bytes (mid m) (rflags r5) (cq r5) (can r5) (cau r5) (cad r5)) = 12) by reflexivity.
-  assert (Hhl : length (hdr_bytes (mid m) (rflags r5) (cq r5) (can r5) (cau r5) (cad r5)) = 12%nat) by reflexivity.
-  remember (hdr_bytes (mid m) (rflags r5) (cq r5) (can r5) (cau r5) (cad r5)) as hdr eqn:Ehdr.
-  destruct WF as [W0 WQ WA WU WD KA KU KD WO].
-  (* questions *)
-  destruct (add_questions_chain (mq m) r2 s1 hdr) as (emq & qs & Oq & TSq & TBq & QC & QD & Cq0 & Cq1 & Cq2 & Cq3 & Fq & _);
-    [rewrite Hh; reflexivity|apply TableSound_nil'|constructor|exact WQ|exact S1|].
-  (* answer, authority, additional *)
-  destruct (add_rrsets_chain 1 (man m) s1 s2 (hdr ++ emq)) as (em1 & ds1 & O1 & TS1 & TB1 & C1 & SD1 & N1 & N1' & F1 & _);
-    [lia|rewrite Oq, !zlen_app', Hh; reflexivity|exact TSq|exact TBq|exact WA|exact S2|].
-  destruct (add_rrsets_chain 2 (mau m) s2 s3 ((hdr ++ emq) ++ em1)) as (em2 & ds2 & O2 & TS2 & TB2 & C2 & SD2 & N2 & N2' & F2 & _);
-    [lia|rewrite O1, Oq, !zlen_app', Hh; reflexivity|exact TS1|exact TB1|exact WU|exact S3|].
-  destruct (add_rrsets_chain 3 (mad m) s3 s4 (((hdr ++ emq) ++ em1) ++ em2)) as (em3 & ds3 & O3 & TS3 & TB3 & C3 & SD3 & N3 & N3' & F3 & _);
-    [lia|rewrite O2, O1, Oq, !zlen_app', Hh; reflexivity|exact TS2|exact TB2|exact WD|exact S4|].
-  remember ((((hdr ++ emq) ++ em1) ++ em2) ++ em3) as f3 eqn:Ef3.
-  assert (Os4 : out s4 = repeat 0 12 ++ emq ++ em1 ++ em2 ++ em3).
-  { rewrite O3, O2, O1, Oq. unfold r2. cbn [out set_limits r0]. rewrite <- !app_assoc. reflexivity. }
-  assert (Hz4 : zlen f3 = zlen (out r4)).
-  { unfold r4. cbn [out release_reserved set_limits]. rewrite Os4. rewrite Ef3. rewrite !zlen_app'.
-    change (zlen (repeat 0 12)) with 12. lia. }
-  (* counts and flags after the sections *)
-  assert (Hcnt : cq s4 = zlen qs /\ can s4 = zlen ds1 /\ cau s4 = zlen ds2 /\ cad s4 = zlen ds3 /\ rflags s4 = mflags m).
-  { pose proof (N1' 0 ltac:(lia) ltac:(lia)) as A0. pose proof (N1' 2 ltac:(lia) ltac:(lia)) as A2.
-    pose proof (N1' 3 ltac:(lia) ltac:(lia)) as A3.
-    pose proof (N2' 0 ltac:(lia) ltac:(lia)) as B0. pose proof (N2' 1 ltac:(lia) ltac:(lia)) as B1.
-    pose proof (N2' 3 ltac:(lia) ltac:(lia)) as B3.
-    pose proof (N3' 0 ltac:(lia) ltac:(lia)) as D0. pose proof (N3' 1 ltac:(lia) ltac:(lia)) as D1.
-    pose proof (N3' 2 ltac:(lia) ltac:(lia)) as D2.
-    unfold count_of in *. cbn [Z.eqb Pos.eqb] in *.
-    unfold r2 in *. cbn [cq can cau cad rflags set_limits r0] in *.
-    repeat split; try lia; try (rewrite F3, F2, F1, Fq; reflexivity); try congruence. }
-  destruct Hcnt as (K0 & K1 & K2 & K3 & KF).
-  destruct (mopt m) as [o'|] eqn:EO.
-  - apply bind_ok in R5. destruct R5 as ([b5 s5] & A5 & R5). unfold raise_if_big in R5. cbn [fst snd] in R5.
-    destruct b5; [discriminate|]. injection R5 as <-.
-    destruct (add_opt_chain o' (compute_opt_reserve m 0) 0 r4 s5 f3 Hz4) as (emo & wb & owner' & Oo & HW & CIo & RO & TSo & Q0 & Q1 & Q2 & Q3 & QF).
-    { unfold r4. cbn [tbl release_reserved set_limits]. exact TS3. }
-    { unfold TblBelow, r4 in *. cbn [out tbl release_reserved set_limits]. exact TB3. }
-    { exact A5. }
-    unfold r4 in Oo, Q0, Q1, Q2, Q3, QF. cbn [out cq can cau cad rflags release_reserved set_limits] in Oo, Q0, Q1, Q2, Q3, QF.
-    assert (Eout : hdr ++ skipn 12 (out s5) = f3 ++ emo).
-    { rewrite Oo, Os4. rewrite <- !app_assoc. rewrite (skipn_app_exact' (repeat 0 12)) by reflexivity.
-      rewrite Ef3. rewrite <- !app_assoc. reflexivity. }
-    assert (Ehdr' : hdr = hdr_bytes (mid m) (mflags m) (zlen qs) (zlen ds1) (zlen ds2) (zlen ds3 + 1)).
-    { rewrite Ehdr, Q0, Q1, Q2, Q3, QF, K0, K1, K2, K3, KF. reflexivity. }
-    rewrite Q0, Q1, Q2, Q3, K0, K1, K2, K3 in *. rewrite QF, KF in Hfl.
-    exists qs, ds1, ds2, ds3, owner', wb, (emq ++ em1 ++ em2 ++ em3 ++ emo),
-      (length (hdr ++ emq)), (length ((hdr ++ emq) ++ em1)), (length (((hdr ++ emq) ++ em1) ++ em2)), (length f3).
-    cbn [out tbl set_out]. rewrite Eout. cbn [opt_count].
-    split; [rewrite Ef3, Ehdr'; rewrite <- !app_assoc; reflexivity|].
-    split; [exact Hid|]. split; [exact Hfl|]. split; [lia|]. split; [lia|]. split; [lia|]. split; [lia|].
-    split; [rewrite <- Hhl; rewrite Ef3; do 4 apply QChain_app_w; exact QC|].
-    split; [rewrite Ef3; do 3 apply Chain_app_w; exact C1|].
-    split; [rewrite Ef3; do 2 apply Chain_app_w; exact C2|].
-    split; [apply Chain_app_w; exact C3|].
-    split; [exact QD|]. split; [exact SD1|]. split; [exact SD2|]. split; [exact SD3|].
-    split; [split; [exact RO|split; [exact CIo|exact HW]]|].
-    exact TSo.
-  - injection R5 as <-.
-    assert (Eout : hdr ++ skipn 12 (out r4) = f3).
-    { unfold r4. cbn [out release_reserved set_limits]. rewrite Os4.
-      rewrite (skipn_app_exact' (repeat 0 12)) by reflexivity. rewrite Ef3. rewrite <- !app_assoc. reflexivity. }
-    unfold r4 in Ehdr, Hc0, Hc1, Hc2, Hc3, Hfl. cbn [cq can cau cad rflags release_reserved set_limits] in Ehdr, Hc0, Hc1, Hc2, Hc3, Hfl.
-    assert (Ehdr' : hdr = hdr_bytes (mid m) (mflags m) (zlen qs) (zlen ds1) (zlen ds2) (zlen ds3 + 0)).
-    { rewrite Ehdr, K0, K1, K2, K3, KF, Z.add_0_r. reflexivity. }
-    rewrite K0, K1, K2, K3 in *. rewrite KF in Hfl.
-    exists qs, ds1, ds2, ds3, [[]], [], (emq ++ em1 ++ em2 ++ em3),
-      (length (hdr ++ emq)), (length ((hdr ++ emq) ++ em1)), (length (((hdr ++ emq) ++ em1) ++ em2)), (length f3).
-    cbn [out tbl set_out]. rewrite Eout. cbn [opt_count].
-    split; [rewrite Ef3, Ehdr'; rewrite <- !app_assoc; reflexivity|].
-    split; [exact Hid|]. split; [exact Hfl|]. split; [lia|]. split; [lia|]. split; [lia|]. split; [lia|].
-    split; [rewrite <- Hhl; rewrite Ef3; do 3 apply QChain_app_w; exact QC|].
-    split; [rewrite Ef3; do 2 apply Chain_app_w; exact C1|].
-    split; [rewrite Ef3; apply Chain_app_w; exact C2|].
-    split; [exact C3|].
-    split; [exact QD|]. split; [exact SD1|]. split; [exact SD2|]. split; [exact SD3|].
-    split; [reflexivity|]. unfold r4. cbn [tbl release_reserved set_limits]. exact TS3.
-Qed.
 
 Lemma set_get_sec m sec : 0 <= sec <= 3 -> set_sec m sec (get_sec m sec) = m.
 Proof.
@@ -282,60 +100,19 @@ Proof.
   subst ds. cbn [fold_left]. symmetry. apply set_get_sec. exact Hs.
 Qed.
 
-Lemma section_rebuilt sec l ds m :
-  1 <= sec <= 3 -> SecDesc l ds -> Forall wf_rrset l -> keys_fresh [] l -> get_sec m sec = [] ->
+Lemma section_rebuilt o sec l ds m :
+  1 <= sec <= 3 -> SecDesc o l ds -> Forall (wf_rrset o) l -> keys_fresh [] l -> get_sec m sec = [] ->
   exists l', Forall2 rrset_equiv l' l /\ fold_left (apply_d sec false) ds m = set_sec m sec l'.
 Proof.
   intros Hs SD WF KF HE. rewrite fold_apply_d_eq by lia. rewrite HE.
-  destruct (regroup_sec l ds [] [] SD WF (Forall2_nil _) KF) as (l' & EQ & E).
+  destruct (regroup_sec o l ds [] [] SD WF (Forall2_nil _) KF) as (l' & EQ & E).
   exists l'. split; [exact EQ|]. rewrite E. reflexivity.
-Qed.
-
-Theorem render_parse_lemma m ms rp w :
-  WfMsg m -> mtsig m = None -> to_wire m None ms rp false 0 = Ok w ->
-  exists m', from_wire w None po0 = Ok m' /\ msg_equiv m' m.
-Proof.
-  intros WF NT H. unfold to_wire in H. apply bind_ok in H. destruct H as (r & HR & H). injection H as <-.
-  destruct (render_structure m ms rp r WF NT HR)
-    as (qs & ds1 & ds2 & ds3 & owner' & wb & body & e0 & e1 & e2 & e3 & Eo & Hid & Hfl & L0 & L1 & L2 & L3 &
-        QC & C1 & C2 & C3 & QD & SD1 & SD2 & SD3 & HO & _).
-  destruct WF as [W0 WQ WA WU WD KA KU KD WO].
-  exists (read_result (mid m) (mflags m) qs ds1 ds2 ds3 (mopt m)). split.
-  - rewrite Eo in *. eapply read_structure; try eassumption.
-    + apply SecDesc_ordinary with (l := man m); assumption.
-    + apply SecDesc_ordinary with (l := mau m); assumption.
-    + apply SecDesc_ordinary with (l := mad m); assumption.
-    + destruct (mopt m) as [o'|]; [|exact HO]. destruct HO as (A & B & C).
-      split; [exact A|]. split; [exact B|]. split; [exact C|exact WO].
-  - unfold read_result.
-    set (m0 := mkMsg (mid m) (mflags m) [] [] [] [] None None).
-    destruct (fold_add_q_keeps qs m0) as (Q1 & Q2 & Q3 & Q4 & Q5 & Q6 & Q7).
-    set (m1 := fold_left add_q qs m0) in *.
-    assert (G1 : get_sec m1 1 = []) by (unfold get_sec; cbn [Z.eqb Pos.eqb]; rewrite Q2; reflexivity).
-    destruct (section_rebuilt 1 (man m) ds1 m1 ltac:(lia) SD1 WA KA G1) as (l1 & EQ1 & E1).
-    rewrite E1. set (m2 := set_sec m1 1 l1).
-    assert (G2 : get_sec m2 2 = []) by (unfold m2, get_sec, set_sec; cbn [Z.eqb Pos.eqb mau]; rewrite Q3; reflexivity).
-    destruct (section_rebuilt 2 (mau m) ds2 m2 ltac:(lia) SD2 WU KU G2) as (l2 & EQ2 & E2).
-    rewrite E2. set (m3 := set_sec m2 2 l2).
-    assert (G3 : get_sec m3 3 = []) by (unfold m3, m2, get_sec, set_sec; cbn [Z.eqb Pos.eqb mad]; rewrite Q4; reflexivity).
-    destruct (section_rebuilt 3 (mad m) ds3 m3 ltac:(lia) SD3 WD KD G3) as (l3 & EQ3 & E3).
-    rewrite E3. set (m4 := set_sec m3 3 l3).
-    assert (F : mid m4 = mid m /\ mflags m4 = mflags m /\ mq m4 = mq m1 /\ man m4 = l1 /\ mau m4 = l2 /\ mad m4 = l3 /\ mopt m4 = None).
-    { unfold m4, m3, m2. cbn [mid mflags mq man mau mad mopt set_sec Z.eqb Pos.eqb]. rewrite Q5, Q6, Q1. auto 10. }
-    destruct F as (F1 & F2 & F3 & F4 & F5 & F6 & F7).
-    assert (QE : Forall2 q_equiv (mq m1) (mq m)).
-    { rewrite Q7. cbn [mq m0 app]. clear - QD. induction QD as [|rs q l qs (A & B & C & D) _ IH]; cbn [map]; constructor; [|exact IH].
-      unfold q_equiv. cbn [rname rclass rtype rcovers rdeleting rttl rrds]. auto 10. }
-    destruct (mopt m) as [o'|] eqn:EO.
-    + unfold msg_equiv. cbn [mid mflags mq man mau mad mopt set_opt]. rewrite F1, F2, F3, F4, F5, F6, EO.
-      repeat split; try assumption.
-    + unfold msg_equiv. rewrite F1, F2, F3, F4, F5, F6, F7, EO. repeat split; assumption.
 Qed.
 
 (* ---------- corollaries ---------- *)
 Definition rr_count (l : list rrset) : Z := fold_right (fun rs acc => rrset_count rs + acc) 0 l.
 
-Lemma SecDesc_count : forall l ds, SecDesc l ds -> Forall wf_rrset l -> zlen ds = rr_count l.
+Lemma SecDesc_count o : forall l ds, SecDesc o l ds -> Forall (wf_rrset o) l -> zlen ds = rr_count l.
 Proof.
   induction 1 as [|rs l ds1 ds2 F2 SD IH]; intros WF; [reflexivity|].
   inversion WF as [|? ? W1 WF']; subst. cbn [rr_count fold_right]. rewrite zlen_app', (IH WF').
@@ -343,57 +120,3 @@ Proof.
   apply Forall2_len in F2. destruct (rrds rs) eqn:E; [congruence|]. unfold zlen. f_equal. exact F2.
 Qed.
 
-(* the header counts are the numbers of records present, and they account for every octet *)
-Theorem counts_exact_lemma m ms rp w :
-  WfMsg m -> mtsig m = None -> to_wire m None ms rp false 0 = Ok w ->
-  exists body,
-    w = hdr_bytes (mid m) (mflags m) (zlen (mq m)) (rr_count (man m)) (rr_count (mau m))
-                  (rr_count (mad m) + opt_count (mopt m)) ++ body /\
-    exists (qs : list qd) (ds1 ds2 ds3 : list rrd) (e0 e1 e2 e3 : nat),
-      zlen qs = zlen (mq m) /\ zlen ds1 = rr_count (man m) /\ zlen ds2 = rr_count (mau m) /\
-      zlen ds3 = rr_count (mad m) /\
-      QChain w 12 qs e0 /\ Chain w e0 ds1 e1 /\ Chain w e1 ds2 e2 /\ Chain w e2 ds3 e3 /\
-      match mopt m with
-      | Some o' => exists owner' wb, RRreads w e3 owner' tOPT (opayload o') (oflags o') [FRest] [PB wb] (length w)
-      | None => e3 = length w
-      end.
-Proof.
-  intros WF NT H. unfold to_wire in H. apply bind_ok in H. destruct H as (r & HR & H). injection H as <-.
-  destruct (render_structure m ms rp r WF NT HR)
-    as (qs & ds1 & ds2 & ds3 & owner' & wb & body & e0 & e1 & e2 & e3 & Eo & Hid & Hfl & L0 & L1 & L2 & L3 &
-        QC & C1 & C2 & C3 & QD & SD1 & SD2 & SD3 & HO & _).
-  destruct WF as [W0 WQ WA WU WD KA KU KD WO].
-  assert (Z0 : zlen qs = zlen (mq m)) by (unfold zlen; f_equal; symmetry; eapply Forall2_len; exact QD).
-  pose proof (SecDesc_count _ _ SD1 WA) as Z1. pose proof (SecDesc_count _ _ SD2 WU) as Z2.
-  pose proof (SecDesc_count _ _ SD3 WD) as Z3.
-  exists body. split; [rewrite Eo, Z0, Z1, Z2, Z3; reflexivity|].
-  exists qs, ds1, ds2, ds3, e0, e1, e2, e3. repeat split; try assumption.
-  destruct (mopt m); [|exact HO]. destruct HO as (A & _). eauto.
-Qed.
-
-(* the compression table at the end of rendering is sound w.r.t. the final octets; and every
-   single name write keeps it sound and is decoded by the independent decoder NameM.from_wire *)
-Theorem render_table_sound_lemma m ms rp r :
-  WfMsg m -> mtsig m = None -> to_wire_st m None ms rp false 0 = Ok r -> TableSound (out r) (tbl r).
-Proof.
-  intros WF NT HR.
-  destruct (render_structure m ms rp r WF NT HR)
-    as (qs & ds1 & ds2 & ds3 & owner' & wb & body & e0 & e1 & e2 & e3 & _ & _ & _ & _ & _ & _ & _ &
-        _ & _ & _ & _ & _ & _ & _ & _ & _ & TS).
-  exact TS.
-Qed.
-
-Theorem name_write_sound_lemma n c file t file' t' :
-  TableSound file t -> name_ok n -> name_to_wire n None c file t = Ok (file', t') ->
-  exists em n',
-    file' = file ++ em /\ TableSound file' t' /\ ci_equal n' n /\
-    NameM.from_wire file' (length file) = Ok (n', length em) /\
-    (forall ext endp, (length file' <= endp)%nat -> nm_from_wire (file' ++ ext) endp (length file) = Ok (n', length file')).
-Proof.
-  intros TS NO H. rewrite name_to_wire_em in H. unfold run_em in H.
-  apply bind_ok in H. destruct H as ([em t1] & HE & H). injection H as <- <-. cbn [fst snd].
-  destruct (nm_em_sound _ _ _ _ _ _ TS NO HE) as (TS1 & n' & CI & NO1 & D).
-  exists em, n'. split; [reflexivity|]. split; [exact TS1|]. split; [exact CI|]. split.
-  - rewrite (Dec_from_wire _ _ _ _ D (proj1 NO1)). f_equal. f_equal. rewrite app_length. lia.
-  - intros ext endp He. apply nm_read; assumption.
-Qed.
